@@ -189,6 +189,34 @@ def fragment(c):
             f.stmts = ["let z: i32 = 1;"]
         else:
             f.stmts = pre + ["let z: i32 = %s catch 0;" % call]
+    elif r == "scope":
+        d, u = "let sv: i32 = 1;", "let z: i32 = sv;"
+        f.stmts = {
+            "same": [d, u],
+            "inner": [d, "if gate == 1 {", "    " + u, "}"],
+            "inner_closure": [d, "let sc := fn() -> i32 {", "    return sv;", "};", "let z: i32 = sc();"],
+            "then_else": ["if gate == 5 {", "    " + d, "} else {", "    " + u, "}"],
+            "then_elseif_cond": ["if gate == 5 {", "    " + d, "} else if sv == 1 {", "}"],
+            "then_elseif_body": ["if gate == 5 {", "    " + d, "} else if gate == 1 {", "    " + u, "}"],
+            "then_after": ["if gate == 1 {", "    " + d, "}", u],
+            "else_after": ["if gate == 5 {", "} else {", "    " + d, "}", u],
+            "elseif_else": ["if gate == 5 {", "} else if gate == 6 {", "    " + d, "} else {", "    " + u, "}"],
+            "while_after": ["let sw: i32 = 0;", "while sw < 1 {", "    sw = sw + 1;", "    " + d, "}", u],
+            "for_after": ["let s0: i32 = 0;", "let s1: i32 = 1;", "for si in s0..s1 {", "    " + d, "}", u],
+            "forvar_after": ["let s0: i32 = 0;", "let s1: i32 = 1;", "for sv in s0..s1 {", "}", u],
+            "block_after": ["{", "    " + d, "}", u],
+            "arm_other": ["match gate {", "    5 => {", "        " + d, "    }", "    _ => {", "        " + u, "    }", "}"],
+            "arm_after": ["match gate {", "    1 => {", "        " + d, "    }", "    _ => { }", "}", u],
+            "closure_after": ["let sc := fn() {", "    " + d, "};", "sc();", u],
+            "catch_after": ["let sd: i32 = fails() catch se {", "    " + d, "} 0;", u],
+            "catchvar_after": ["let sd: i32 = fails() catch sv {", "} 0;", "let z: str = sv;"],
+            "fn_other": [u],
+            "param_other": [u],
+        }[a]
+        if a == "fn_other":
+            f.top = ["fn elsewhere() {\n    let sv: i32 = 1;\n}"]
+        if a == "param_other":
+            f.top = ["fn elsewhere(sv: i32) { }"]
     elif r == "bang":
         body = 'return "e"!;'
         if a == "resultfn":
